@@ -246,7 +246,8 @@ func (a *Args) String() string {
 		}
 	}
 	if a.Elided {
-		v = append(v, "...")
+		// Do not write into the backing array of a.Processed.
+		v = append(v[:len(v):len(v)], "...")
 	}
 	return strings.Join(v, ", ")
 }
